@@ -56,6 +56,9 @@ type env struct {
 
 var scenarios sync.Map // id -> *scenario
 
+// echoMode makes the handlers answer calls that carry no scenario id with the incoming metadata they see.
+var echoMode atomic.Bool
+
 func newEnv(r *vk.Run) (*env, error) {
 	e := &env{r: r, srv: &scriptServer{}}
 	e.lis = bufconn.Listen(1 << 20)
@@ -852,6 +855,15 @@ func serve(st srvStream, first string, hasFirst bool) (string, error) {
 	ctx := st.Context()
 	sn := lookup(ctx)
 	if sn == nil {
+		if echoMode.Load() {
+			// request-metadata phase: answer with the user metadata the handler sees as incoming
+			md, _ := metadata.FromIncomingContext(ctx)
+			seen := "incoming:" + normMD(md)
+			if _, isUnary := st.(unarySrv); isUnary {
+				return seen, nil
+			}
+			return "", st.Send(seen)
+		}
 		return "", status.Error(codes.FailedPrecondition, "c13: call does not belong to a running scenario")
 	}
 	sn.mu.Lock()
